@@ -577,6 +577,7 @@ def run(F, rep, tier):
                           % (key, srcs), "%s:%s" % (h["file"], h["line"]))
     rep.floor(r5, "number constructors fed by possibly non-finite primitives", nsink, 12)
     division_rule(F, rep, seen)
+    formula_rule(F, rep)
 
 
 # divisions whose divisor is non-zero for a reason the rule cannot derive from a dominating test: key -> reason
@@ -652,6 +653,56 @@ def division_rule(F, rep, seen):
                 rep.violation(rid, key, "FeelNumber division at %s:%s: the divisor %s is not tested against zero on the path (conditions in force: %s); x / 0 must yield null, decNumber returns Infinity/NaN"
                               % (h["file"], line, str(d)[:80], [str(c[0])[:60] for c in cond][-3:]), "%s:%s" % (h["file"], line))
     rep.floor(rid, "FeelNumber divisions reachable from evaluation", n, 6)
+
+
+# numeric built-ins of the property that are not a single FeelNumber operation: the formula the specification gives, over the positional arguments
+FORMULAS = {
+    "dmntk_feel_evaluator::bifs::core::modulo": ("sub(arg0,mul(arg1,floor(div(arg0,arg1))))", "modulo(dividend, divisor) = dividend - divisor * floor(dividend / divisor) (DMN 1.3, 10.3.4.5)"),
+}
+
+
+def formula_rule(F, rep):
+    """R02.7: every number a formula-defined numeric built-in returns is computed by exactly the specified formula (no shortcut branch)."""
+    rid = rep.rule("R02.7", "formula-defined numeric built-ins (modulo) return, on every path that yields a number, exactly the specification's formula over their arguments")
+
+    def fml(d):
+        while isinstance(d, tuple) and d and d[0] in ("via",):
+            d = d[2]
+        if not isinstance(d, tuple) or not d:
+            return "?"
+        if d[0] == "un" and d[1] in ("*", "&"):
+            return fml(d[2])
+        if d[0] == "unwrap" and d[1].endswith("Value::Number"):
+            return fml(d[2])
+        if d[0] == "arg":
+            return "arg%d" % d[1]
+        if d[0] == "bin":
+            op = {"+": "add", "-": "sub", "*": "mul", "/": "div", "%": "rem"}.get(d[1], d[1])
+            return "%s(%s,%s)" % (op, fml(d[2]), fml(d[3]))
+        if d[0] == "call" and isinstance(d[1], str) and d[1].startswith(NUM + "::"):
+            return "%s(%s)" % (d[1].split("::")[-1], ",".join(fml(x) for x in d[2]))
+        if d[0] == "call" and isinstance(d[1], str):
+            return "%s(%s)" % (d[1].split("::")[-1], ",".join(fml(x) for x in d[2]))
+        return d[0]
+    for name, (want, text) in FORMULAS.items():
+        h = F.hir.get(name)
+        if h is None:
+            rep.missing_anchor(rid, name)
+            continue
+        fl = hirflow.Flow(h)
+        k = 0
+        for d, cond, line in fl.returns:
+            if not (isinstance(d, tuple) and d and d[0] == "ctor" and d[1].endswith("Value::Number") and d[2]):
+                continue
+            got = fml(d[2][0])
+            key = "%s:number-result#%d" % (name.split("::")[-1], k)
+            k += 1
+            if got == want:
+                rep.ok(rid, key, text)
+            else:
+                rep.violation(rid, key, "%s returns %s at line %s; the specification defines %s" % (name.split("::")[-1], got, line, text), "%s:%s" % (h["file"], line))
+        if k == 0:
+            rep.violation(rid, "%s:number-result" % name.split("::")[-1], "no path of %s returns a number built by a formula (shape not recognised)" % name, "%s:%s" % (h["file"], h["line"]))
 
 
 def from_string_of_integer(F, h):
